@@ -15,6 +15,13 @@ PROMPTS = ["> ", "", "$ ", "prompt> ", "中> ", "top line\n> ", "\x1b[32mλ\x1b[
 EDIT_EMACS = [b"\x01", b"\x05", b"\x02", b"\x02", b"\x06", b"\x06", b"\x1bb", b"\x1bf", b"\x0b", b"\x15", b"\x17", b"\x04", b"\x7f", b"\x7f",
               b"x", b"y", "中".encode(), "é".encode(), b" ", b"\x14", b"\x19", b"\x0c", b"\x1f", b"\x1bd", b"\x10", b"\x0e"]
 EDIT_VI = [b"h", b"l", b"0", b"$", b"w", b"b", b"e", b"x", b"X", b"D", b"u", b"~", b"rZ", b"p", b"P", b"j", b"k", b"dw", b"db", b"|", b"^"]
+# keys that make the library show something BELOW the input (a hint: numeric argument, register, macro being recorded, macro
+# run, init file read again) or highlight part of it (visual mode): the rows below are not constrained, the frame still is
+HINT_EMACS = [b"\x1b4", b"\x1b-", b"\x18(", b"\x18)", b"\x18e", b"\x1b4x", b"\x18(ab\x18)"]
+HINT_VI = [b"qa", b"q", b"@a", b"3", b'"a', b"v", b"vl", b"\x1b", b"qaxq", b"2@a", b"V"]
+
+
+HINTKEYS = set(HINT_EMACS) | set(HINT_VI)
 
 
 def dwidth(s):
@@ -123,6 +130,7 @@ def frame_rows(prompt_w, glyphs, W):
 
 def project(cs, evs):
     out = [({"ev": "reset", "w": cs["w"], "h": cs["h"]}, {"ev": "reset"})]
+    hintkey = False
     same = False      # the next wait belongs to the same edit as the previous one and nothing moved the frame on purpose
     for e in evs:
         ev = e["ev"]
@@ -130,6 +138,8 @@ def project(cs, evs):
             same = False
         elif ev == "read" and 0x0c in e.get("bytes", []):
             same = False      # clear-screen
+        if ev == "read":
+            hintkey = bytes(e.get("bytes", [])) in HINTKEYS
         if ev == "out":
             out.append(({"ev": "out", "tok": e["tok"], "cells": e.get("cells") or [], "n": e.get("n", 0), "a": e.get("a", 0), "b": e.get("b", 0)}, e))
         elif ev == "wait":
@@ -140,7 +150,11 @@ def project(cs, evs):
                 # life is not examined (relative cursor movements are clamped from here on)
                 cs["_overflow"] = True
                 break
-            ghost = e.get("local", "") in ("", None) and not e.get("minibuf")
+            # rows the previous frame used and this one does not must be blank - unless the library shows a hint there (the rows
+            # below the input are its to use): a macro being recorded, a pending numeric argument or register, or the one-off
+            # hint of the key just read
+            ghost = (e.get("local", "") in ("", None) and not e.get("minibuf") and not e.get("rec") and not e.get("argset")
+                     and not e.get("regsel") and not hintkey)
             out.append(({"ev": "wait", "prompt": [[x[0], x[1]] for x in e["pglyphs"]], "buf": [[x[0], x[1]] for x in g],
                          "curidx": cur_indices(g, e["cur"]), "ghost": bool(ghost), "sametop": same},
                         {k: v for k, v in e.items() if k not in ("cells",)}))
@@ -179,8 +193,11 @@ def make_cases(rng, n, tier):
                 cs["setups"].append(setup(buf, cur, smode))
                 sess.append(SETUP_KEY)
                 pool = EDIT_VI if smode == "vi-command" else EDIT_EMACS
+                hints = HINT_VI if smode == "vi-command" else HINT_EMACS if smode == "emacs" else []
+                if W < 40 or cs["h"] < 24:
+                    hints = []      # (hints are examined where they fit on a row of their own and the screen does not scroll under them)
                 for _ in range(rng.randint(0, 5)):
-                    sess.append(keys(rng.choice(pool)))
+                    sess.append(keys(rng.choice(hints) if hints and rng.random() < 0.25 else rng.choice(pool)))
             end = rng.choice(["accept", "accept", "interrupt"])
             sess.append(keys(b"\r" if end == "accept" else b"\x03"))
             cs["sessions"].append(sess)
@@ -252,7 +269,7 @@ def run(rep, tier, seed):
     check(rep, cases, wd)
     rep.rule = ("seeded: widths {8,12,20,40,80} x heights {12,24,40} x prompts {none, plain, wide, two-line, coloured, row-filling} x buffers of "
                 "1-4 lines whose display widths are k*W - prompt + {-2..2} (k = 0..3) or random, over {ASCII, CJK, emoji, combining, tab, "
-                "blank} glyphs x cursor {end, start, anywhere} x emacs / vi-insert / vi-command x 0-5 editing keys after each set-up, "
+                "blank} glyphs x cursor {end, start, anywhere} x emacs / vi-insert / vi-command x 0-5 editing keys after each set-up (one in four a key that shows a hint below the input: numeric argument, register, macro recording / run, or starts visual mode), "
                 "several set-ups (longer and shorter than the preceding frame) per call, 3 calls per terminal (scrolling included); "
                 "non-trivial = distinct (width, prompt, glyph sequence, cursor) frames compared")
     rep.explanation = ("every output token of the real library is interpreted by Terminal.tla; at each wait TermTrace requires the cursor on "
